@@ -71,10 +71,9 @@ def iqrm_mask(array: np.ndarray, threshold: float = 3, radius: int = 5) -> np.nd
         raise ValueError(msg)
     mask = np.zeros_like(array, dtype="bool")
     lags = np.concatenate([np.arange(-radius, 0), np.arange(1, radius + 1)])
-    shifted_x = np.lib.stride_tricks.as_strided(
+    shifted_x = np.lib.stride_tricks.sliding_window_view(
         np.pad(array, radius, mode="edge"),
-        shape=(len(array), 2 * radius + 1),
-        strides=array.strides * 2,
+        2 * radius + 1,
     )
     lagged_diffs = array[:, np.newaxis] - shifted_x[:, lags + radius]
     lagged_diffs = lagged_diffs.T
